@@ -261,6 +261,20 @@ fn oracle(case: &[u8], obs: &mut Obs) -> Result<(), String> {
             _ => 0,
         };
         let rs = open_stream_as(e, verif_model::io::Reader::new(data.clone()).at_position(pos0));
+        // the same file behind a stream that cannot seek relative to its end (it may refuse it, but must not open it
+        // with tables other than the declared ones)
+        let ek = (data.len() % 8) as u8;
+        if let Ok(fs2) = open_stream_as(e, verif_model::io::Reader::new(data.clone()).at_position(pos0).without_seek_end(ek)) {
+            let what = format!("ElfStream over a stream whose SeekFrom::End fails with {:?}", verif_model::io::ERROR_KINDS[ek as usize]);
+            match &exp {
+                Err(why) => return Err(format!("{} opened the file although {}", what, why)),
+                Ok(x) => {
+                    if fs2.section_headers().len() as u64 != x.sh.map(|t| t.1).unwrap_or(0) || fs2.segments().len() as u64 != x.ph.map(|t| t.1).unwrap_or(0) {
+                        return Err(format!("{} has {} section headers and {} program headers; declared {:?} / {:?}", what, fs2.section_headers().len(), fs2.segments().len(), x.sh, x.ph));
+                    }
+                }
+            }
+        }
         match (&exp, &rb, &rs) {
             (Err(why), Ok(_), _) => return Err(format!("ElfBytes opened the file although {}", why)),
             (Err(why), _, Ok(_)) => return Err(format!("ElfStream opened the file although {}", why)),
